@@ -274,7 +274,9 @@ fn spin_lines(spec: &Spec) -> (Vec<String>, Vec<String>) {
             }
         }
         (Spin::Rec, w) => {
-            defs.push("export rec = |k|".to_string());
+            // (the function is handed to itself: one that names itself captures itself, a
+            // reference cycle koto never frees, which keeps the scenario's chunk alive)
+            defs.push("export rec = |k, g|".to_string());
             if let Some(w) = w {
                 defs.push(format!("  if k >= {w}"));
                 defs.push("    return k".into());
@@ -282,8 +284,8 @@ fn spin_lines(spec: &Spec) -> (Vec<String>, Vec<String>) {
             if spec.slow_in_body {
                 defs.push("  slow()".into());
             }
-            defs.push("  rec(k + 1)".to_string());
-            lines = vec!["z = rec(0)".into()];
+            defs.push("  g(k + 1, g)".to_string());
+            lines = vec!["z = rec(0, rec)".into()];
         }
         (Spin::PingPong, w) => {
             defs.push("export ping = |k|".to_string());
